@@ -221,11 +221,13 @@ Definition align_hint (ui : option info) (k : list byte) : Z :=
               end
   end.
 
-(* hash sizes: atoi; negative -> default.  ZERO IS ACCEPTED (finding F9). *)
+(* hash sizes: atoi; zero (also: a non-numeric string) and negative values -> default.
+   (Before the fix of F9 the test was `< 0` and 0 became the table size; that version is kept
+   as hash_hint_old in Proofs_Config.v together with its refutation.) *)
 Definition hash_hint (ui : option info) (k : list byte) (dflt : Z) : Z :=
   match uget ui k with
   | None => dflt
-  | Some v => let x := atoi v in if x <? 0 then dflt else x
+  | Some v => let x := atoi v in if x <=? 0 then dflt else x
   end.
 
 Definition swap_hint (ui : option info) : swapmode * list byte :=
@@ -289,7 +291,7 @@ Definition open_config (user : option info) (env_hints hook_chunk safe_env : opt
            (nprocs : Z) : config * info :=
   set_pnetcdf_hints (combine_env_hints user env_hints) hook_chunk safe_env nprocs.
 
-(* hash table sizes that make name lookups index out of bounds *)
+(* every name table has at least one bucket (the bucket index is hash & (size - 1)) *)
 Definition hash_sizes_ok (c : config) : bool :=
   (0 <? c_hash_dim c) && (0 <? c_hash_var c) && (0 <? c_hash_gattr c) && (0 <? c_hash_vattr c).
 
